@@ -184,6 +184,15 @@ def sched_scenarios(run, menu_name, group, theorems, mode="th", reader_relaxed=F
                 sig = {"kind": "sched", "symptom": classify(calls, outs, st, r["status"]), "scenario": sid, "mode": mode,
                        "calls": sorted(c["op"] for c in calls)}
                 run.violation(sig, "[%s] after [%s] under schedule %s: %s" % (s["calls"], s["setup"], ",".join(map(str, r["schedule"])), problem), replay)
+    # extraction vs kernel on a couple of the replay command lines used above
+    if witnesses and chosen:
+        import checks_cf
+        s0 = chosen[0]
+        setup0, calls0 = cf.parse_history(s0["setup"]), parse_calls(s0["calls"])
+        fin0 = sched.parse_finals(model.run_lines([sched.model_sched_line("sched", setup0, calls0)], timeout=1200)[0])
+        lines = [sched.model_sched_line("replay", setup0, calls0, f["schedule"]) for f in fin0[:2]]
+        if lines:
+            checks_cf.kernel_check(run, rng, lines, model.run_lines(lines), len(lines))
     run.extra["scenario_runs"] = replays
     run.extra["menu_scenarios"] = len(scen)
     run.extra["scenarios_run"] = len(chosen)
